@@ -43,7 +43,15 @@ Inductive op :=
 | OScriptItems (l : list script)                      (* templ.RenderScriptItems *)
 | OCSSItems (fs : list cform)                         (* templ.RenderCSSItems *)
 | OElem (fs : list cform) (ss : list script)          (* <div class={ fs... } onclick={ s } ...> as generated *)
-| OOnce (h : N) (body : list op)                      (* @handle.Once() { body }  /  WithComponent(body) *)
+| OOnce (h : N) (body : list op)                      (* @handle.Once() { body } : the handle is given a child block *)
+| OOnceC (h : N) (body : list op)                     (* @handle.Once() (self-closing) on a handle built with
+                                                         templ.NewOnceHandle(templ.WithComponent(c())), templ c() { body } *)
+| OOnceSelf (h : N)                                   (* @handle.Once() (self-closing) on a handle that has no component:
+                                                         nothing to render, the handle counts as rendered *)
+| OCall (slot : bool) (pre : list op) (blk : bool) (block : list op) (post : list op)
+                                                      (* @c() (blk = false) or @c() { block } (blk = true), where
+                                                         templ c() { pre { children... } post } (slot = true) or
+                                                         templ c() { pre post } (slot = false) *)
 | ONonce (n : bytes)                                  (* templ.WithNonce(ctx, n) somewhere in the rendering context *)
 | OMiddleware (l : list cssclass).                    (* the request, carrying this rendering context, passes through
                                                          templ.NewCSSMiddleware(next, l...): a second, stacked middleware, or
@@ -102,7 +110,17 @@ Inductive want :=
 | WCallAttr (s : script)        (* the call in the on* attribute *)
 | WAttr (fs : list cform).      (* the class attribute of an element *)
 
-(* only once handles decide whether a use is reached at all: a body is rendered on the handle's first use *)
+(* running a function with state over a list, collecting what it yields *)
+Definition seqf {S A B} (f : S -> A -> S * list B) : S -> list A -> S * list B :=
+  fix go (s : S) (l : list A) : S * list B :=
+    match l with
+    | [] => (s, [])
+    | o :: t => let '(s1, w1) := f s o in let '(s2, w2) := go s1 t in (s2, w1 ++ w2)
+    end.
+
+(* only once handles decide whether a use is reached at all: a body is rendered on the handle's first use, whichever
+   way the handle got its content; a children slot holds the block given at the call and nothing else: it is empty
+   when the call has no block, whatever was rendered before *)
 Fixpoint wanted1 (hs : list N) (o : op) : list N * list want :=
   match o with
   | OText t => (hs, [])
@@ -119,6 +137,13 @@ Fixpoint wanted1 (hs : list N) (o : op) : list N * list want :=
               | [] => (hs, [])
               | o :: t => let '(h1, w1) := wanted1 hs o in let '(h2, w2) := go h1 t in (h2, w1 ++ w2)
               end) (h :: hs) body
+  | OOnceC h body => if existsb (N.eqb h) hs then (hs, []) else seqf wanted1 (h :: hs) body
+  | OOnceSelf h => if existsb (N.eqb h) hs then (hs, []) else (h :: hs, [])
+  | OCall slot pre blk block post =>
+      let '(h1, w1) := seqf wanted1 hs pre in
+      let '(h2, w2) := if slot && blk then seqf wanted1 h1 block else (h1, []) in
+      let '(h3, w3) := seqf wanted1 h2 post in
+      (h3, w1 ++ w2 ++ w3)
   end.
 Fixpoint wanted (hs : list N) (l : list op) : list N * list want :=
   match l with
